@@ -753,6 +753,16 @@ class Engine:
             if n == 'isnone':
                 v = self.sev(e.args[0], st, bound)
                 return VBool(self.compare(st, ast.Is(), v, NONE))
+            if n in ('keyat', 'posof'):
+                # insertion order of a dict: keyat(d, i) = i-th inserted key, posof(d, k) = its position
+                d = self.sev(e.args[0], st, bound)
+                nd = st.node(d)
+                if nd.keys is None:
+                    raise EngineError('keyat/posof of a dict whose insertion order is not tracked')
+                x = self.sev(e.args[1], st, bound)
+                if n == 'keyat':
+                    return self.wrap(nd.kkind, nd.keys[to_int(x)])
+                return VInt(nd.pos[self.unwrap(x, nd.kkind)])
             if n == 'some':
                 # the value of an optional (meaningful only under `not isnone(x)`, which the contract states)
                 v = self.sev(e.args[0], st, bound)
